@@ -171,6 +171,14 @@ KERNELS = [
          params=[('overwrite', 'Bool'), ('path_exists', 'Bool')], ret='Bool'),
     dict(name='streamRewinds', file='torf/_torrent.py', func='Torrent.write_stream', pick=('if-test-guarding', 'stream.truncate(0)'),
          atoms={'stream.seekable()': 'seekable'}, params=[('seekable', 'Bool')], ret='Bool'),
+    # --- utils.filter_files as Torrent._set_files calls it (C15): the two switchable tests and the switches at the call site
+    dict(name='filterSkipsHidden', file='torf/_utils.py', func='filter_files', pick=('if-test-containing', 'is_hidden('),
+         atoms={'is_hidden(relpath_without_base)': 'is_hidden'}, params=[('hidden', 'Bool'), ('is_hidden', 'Bool')], ret='Bool'),
+    dict(name='filterSkipsEmpty', file='torf/_utils.py', func='filter_files', pick=('if-test-containing', 'real_size('),
+         atoms={'os.path.exists(filepath)': 'path_exists', 'real_size(filepath)': 'size'},
+         params=[('empty', 'Bool'), ('path_exists', 'Bool'), ('size', 'Int')], ret='Bool'),
+    dict(name='setFilesHiddenSwitch', file='torf/_torrent.py', func='Torrent._set_files', pick=('kwarg', 'hidden'), params=[], ret='Bool'),
+    dict(name='setFilesEmptySwitch', file='torf/_torrent.py', func='Torrent._set_files', pick=('kwarg', 'empty'), params=[], ret='Bool'),
     # --- the parameter tables of magnet URIs (C13): literal tuples of names; an element that is itself a tuple
     #     contributes its first component
     dict(name='magnetKnownParameters', kind='strings', file='torf/_magnet.py', func='Magnet',
@@ -252,6 +260,11 @@ def _pick(fn, pick):
         hits = [h for h in hits if pick[1] in '\n'.join(ast.unparse(s) for s in h.body if not isinstance(s, ast.If))]
         if len(hits) != 1:
             raise CannotTranslate(f'{len(hits)} if-statements guarding {pick[1]}')
+        return hits[0].test
+    if kind == 'if-test-containing':
+        hits = [n for n in ast.walk(fn) if isinstance(n, ast.If) and pick[1] in ast.unparse(n.test)]
+        if len(hits) != 1:
+            raise CannotTranslate(f'{len(hits)} if-tests containing {pick[1]}')
         return hits[0].test
     if kind == 'while-test-guarding':
         hits = [n for n in ast.walk(fn) if isinstance(n, ast.While) and any(pick[1] in ast.unparse(b) for b in n.body)]
